@@ -181,6 +181,7 @@ class State:
 
     def assume(self, *facts):
         for f in facts:
+            f = z3.simplify(f)
             if not z3.is_true(f):
                 self.pc.append(f)
 
